@@ -38,10 +38,20 @@ Section Exec.
   Definition rebind (t : template) (extracted : list bind) : list atom :=
     map (param_of t extracted) (tholes t).
 
+  (* DefaultExecutionContext._init_compiled: ONE construct_params(m, extracted_parameters=extracted) call
+     per parameter set m of the execution (a plain execution has the single empty set; an executemany
+     has n >= 2).  A set may name a bind parameter of the statement ("bindparam.key in params"):
+     that value wins; every other parameter is re-bound as above, in EVERY set *)
+  Definition pset := list (N * atom).            (* bind parameter (label) -> value given with the execution *)
+  Definition param_with (t : template) (extracted : list bind) (ps : pset) (l : N) : atom :=
+    match alookup l ps with Some v => v | None => param_of t extracted l end.
+  Definition rebind_many (t : template) (extracted : list bind) (sets : list pset) : list (list atom) :=
+    map (fun ps => map (param_with t extracted ps) (tholes t)) sets.
+
   (* execution without a cache key (compiled_cache=None, or the statement is not cacheable):
      compile, then construct_params() reads the values off the statement's own objects *)
-  Definition exec_direct (ctx : atom) (s : node) : SQL * list atom :=
-    let t := compile ctx s [] in (tsql t, rebind t []).
+  Definition exec_direct (ctx : atom) (s : node) (sets : list pset) : SQL * list (list atom) :=
+    let t := compile ctx s [] in (tsql t, rebind_many t [] sets).
 
   Definition ckey := (atom * ktree)%type.     (* (dialect, key, column_keys, bool(stm), executemany) *)
   Definition ckey_eqb (a b : ckey) : bool := atom_eqb (fst a) (fst b) && ktree_eqb (snd a) (snd b).
@@ -51,22 +61,23 @@ Section Exec.
 
   (* one execution.  [enabled]: compiled_cache is not None;  [evict]: which keys the cache drops
      after the insertion (LRUCache._manage_size is one such choice) *)
-  Record step := mkStep { s_ctx : atom; s_stmt : node; s_enabled : bool; s_evict : ckey -> bool }.
+  Record step := mkStep { s_ctx : atom; s_stmt : node; s_enabled : bool; s_evict : ckey -> bool;
+                          s_sets : list pset }.
 
-  Definition exec_cached (c : cache) (x : step) : (SQL * list atom) * cache :=
+  Definition exec_cached (c : cache) (x : step) : (SQL * list (list atom)) * cache :=
     match (if s_enabled x then gen_key T (s_stmt x) else None) with
-    | None => (exec_direct (s_ctx x) (s_stmt x), c)
+    | None => (exec_direct (s_ctx x) (s_stmt x) (s_sets x), c)
     | Some (k, extracted) =>
         match clookup (s_ctx x, k) c with
-        | Some t => ((tsql t, rebind t extracted), c)                              (* CACHE_HIT *)
+        | Some t => ((tsql t, rebind_many t extracted (s_sets x)), c)              (* CACHE_HIT *)
         | None =>
             let t := compile (s_ctx x) (s_stmt x) extracted in                    (* CACHE_MISS *)
-            ((tsql t, rebind t extracted),
+            ((tsql t, rebind_many t extracted (s_sets x)),
              filter (fun e => negb (s_evict x (fst e))) (((s_ctx x, k), t) :: c))
         end
     end.
 
-  Fixpoint run (c : cache) (h : list step) : list (SQL * list atom) * cache :=
+  Fixpoint run (c : cache) (h : list step) : list (SQL * list (list atom)) * cache :=
     match h with
     | [] => ([], c)
     | x :: r => let o := exec_cached c x in
